@@ -55,6 +55,12 @@ def run_check(prop):
 def apply_edits(edits):
     repo = os.path.join(ST, "repo")
     for e in edits:
+        if "revert" in e:
+            # undo one of the `fix:` commits (the defect it repaired is the seeded violation)
+            r = sh("git -C %s show %s | git -C %s apply -R" % (repo, e["revert"], repo))
+            if r.returncode != 0:
+                raise SystemExit("cannot revert %s: %s" % (e["revert"], r.stderr))
+            continue
         p = os.path.join(repo, e["file"])
         s = open(p).read()
         n = s.count(e["find"])
